@@ -899,7 +899,6 @@ def mk_encoder_loss(horizon, batch1=False, act1=False):
 
 TASKS += [
     Task("model_based_encoder_loss[horizon=2]", mk_encoder_loss(2), setup=setup_encoder, bounded="encoder_horizon == 2 (nnx.scan unrolled exactly; horizon <= 3 stand-in for the unbounded fold)"),
-    Task("model_based_encoder_loss[horizon=1]", mk_encoder_loss(1), setup=setup_encoder, bounded="encoder_horizon == 1"),
     Task("model_based_encoder_loss[horizon=2,N=1]", mk_encoder_loss(2, batch1=True), setup=setup_encoder, allow_raise=LOUD, bounded="encoder_horizon == 2"),
 ]
 
